@@ -106,6 +106,8 @@ pub struct World {
     pub log: u64,
     pub steps: u64,
     pub done: bool,
+    /// the data pieces absorbed since construction / reset (to re-run the history without jumps)
+    pub pieces: Vec<(u64, usize)>,
 }
 
 pub struct S6;
@@ -192,6 +194,7 @@ impl Scenario for S6 {
             log: 0,
             steps: 0,
             done: false,
+            pieces: vec![],
         }
     }
     fn gen_op(&self, w: &World, _mix: &str, st: &mut Streams) -> Option<Op> {
@@ -270,6 +273,7 @@ impl Scenario for S6 {
                     ));
                 }
                 w.reference.as_mut().unwrap().update(&data);
+                w.pieces.push((op.get("dseed") as u64, len));
                 w.blocks += nb;
                 w.buffered = nbuf;
                 if w.jumped && nb > 0 {
@@ -319,6 +323,7 @@ impl Scenario for S6 {
                     return Step::Fail(Violation::new(&["C17"], "K0", format!("reset/finalize_reset panics at a counter value the format allows:{}", t.name), m));
                 }
                 w.reference = Some(Ref::new(ty));
+                w.pieces.clear();
                 w.blocks = 0;
                 w.buffered = 0;
                 w.jumped = false;
@@ -352,6 +357,24 @@ impl Scenario for S6 {
                 }
                 if !w.baseline_ok {
                     stats.note("baseline digest (no jump) already differs from the reference: digest comparison suspended (C04-C07 territory)");
+                    Step::Done
+                } else if got != want && {
+                    // the same pieces without any jump: if implementation and reference disagree there as well, the
+                    // deviation has nothing to do with the counter value (spec conformance, C04-C07: not decided here)
+                    let pieces = w.pieces.clone();
+                    let plain = guarded(|| {
+                        let mut h = new_hash(ty);
+                        let mut r = Ref::new(ty);
+                        for (ds, l) in &pieces {
+                            let d = pattern(*ds, *l);
+                            h.update(&d);
+                            r.update(&d);
+                        }
+                        h.finalize_box() == r.finalize()
+                    });
+                    plain != Ok(true)
+                } {
+                    stats.note("digest differs from the reference also without any counter jump (C04-C07 territory, not decided here)");
                     Step::Done
                 } else if got != want {
                     let bs = boundaries(ty);
